@@ -2693,8 +2693,11 @@ class Processor:
                                 replacement_node)
             elif isinstance(data, (CommentedSeq, list)):
                 for idx, item in enumerate(data):
-                    if data is parent and item is reference_node:
-                        data[idx] = replacement_node
+                    if item is reference_node:
+                        if (hasattr(item, "anchor") or
+                                (data is parent
+                                 and parentref in (idx, idx - len(data)))):
+                            data[idx] = replacement_node
                     else:
                         recurse(item, parent, parentref, reference_node,
                                 replacement_node)
